@@ -79,7 +79,7 @@ THEOREMS = {
     "swap": [T + "swap2_refines", T + "swapSelf_refines", T + "step_refines", T + "run_refines"],
     "rel": [T + "varRel_eq", T + "optRel_eq"], "relm": [T + "optRel_eq"],
     "reln": [T + "optRelNullR_eq", T + "optRelNullL_eq"], "relv": [T + "optRelValR_eq", T + "optRelValL_eq"],
-    "conv": [T + "select_eq", T + "step_refines"],
+    "conv": [T + "step_refines", T + "assign_refines"],
     "get_if": [T + "getIf_eq"], "value_or": [T + "valueOr_eq"], "and_then": [T + "andThen_eq"],
     "reset": [T + "optional_refines"], "null": [T + "optional_refines"], "val": [T + "optional_refines"],
     "ctor_val": [T + "expected_refines"], "ctor_err": [T + "expected_refines"], "ctor_def": [T + "expected_refines"],
